@@ -16,9 +16,12 @@ import (
 )
 
 type c3Obj struct {
-	kind  string // nil t int ratio str chr sym list vec arr sflt dflt lflt elist
+	kind  string // nil t int ratio str chr sym list vec arr sflt dflt lflt elist; mflt = a float as the model read it
 	n, d  *big.Int
-	s     string // str / sym text, lflt source text
+	s     string // str / sym text, lflt source text, mflt format (s d l)
+	neg   bool   // mflt
+	digits string // mflt: significant digits
+	exp   int    // mflt: decimal exponent of the first digit
 	r     rune
 	elems []*c3Obj // list / vec / arr (row-major)
 	tail  *c3Obj   // list: non-nil atom for a dotted list
@@ -162,14 +165,91 @@ func (o *c3Obj) object() slip.Object {
 	panic("c3Obj.object: " + o.kind)
 }
 
-// term renders the wire term (space separated words) for the model driver.
+// term renders the harness' own term (replay files; floats by their bits / source text).
 func (o *c3Obj) term() string {
 	var b strings.Builder
-	o.appendTerm(&b)
+	o.appendTerm(&b, false)
 	return b.String()
 }
 
-func (o *c3Obj) appendTerm(b *strings.Builder) {
+// modelTerm renders the term for the model driver: a float is the decimal its shortest formatting
+// names (f:<s|d|l>:<negative>:<digits>:<exponent>).
+func (o *c3Obj) modelTerm() string {
+	var b strings.Builder
+	o.appendTerm(&b, true)
+	return b.String()
+}
+
+// c3SplitE takes the text of the `e` format with the shortest digits ("-1.25e+07") apart.
+func c3SplitE(text string) (neg bool, digits string, exp int, ok bool) {
+	t := text
+	if strings.HasPrefix(t, "-") {
+		neg, t = true, t[1:]
+	}
+	mant, es, found := strings.Cut(t, "e")
+	if !found {
+		return false, "", 0, false
+	}
+	e, err := strconv.Atoi(es)
+	if err != nil {
+		return false, "", 0, false
+	}
+	digits = strings.Replace(mant, ".", "", 1)
+	for _, c := range digits {
+		if c < '0' || c > '9' {
+			return false, "", 0, false
+		}
+	}
+	if strings.Trim(digits, "0") == "" {
+		return neg, "", 0, true
+	}
+	return neg, digits, e, true
+}
+
+// decimal: the canonical decimal of a finite float (what strconv / big.Float write with the
+// shortest digits); ok is false for NaN and the infinities.
+func (o *c3Obj) decimal() (format string, neg bool, digits string, exp int, ok bool) {
+	switch o.kind {
+	case "sflt":
+		neg, digits, exp, ok = c3SplitE(strconv.FormatFloat(float64(float32(o.f)), 'e', -1, 32))
+		return "s", neg, digits, exp, ok
+	case "dflt":
+		neg, digits, exp, ok = c3SplitE(strconv.FormatFloat(o.f, 'e', -1, 64))
+		return "d", neg, digits, exp, ok
+	case "lflt":
+		lf, isLong := o.object().(*slip.LongFloat)
+		if !isLong {
+			return "l", false, "", 0, false
+		}
+		neg, digits, exp, ok = c3SplitE((*big.Float)(lf).Text('e', -1))
+		return "l", neg, digits, exp, ok
+	case "mflt":
+		return o.s, o.neg, o.digits, o.exp, true
+	}
+	return "", false, "", 0, false
+}
+
+func (o *c3Obj) isFloat() bool {
+	return o.kind == "sflt" || o.kind == "dflt" || o.kind == "lflt" || o.kind == "mflt"
+}
+
+func (o *c3Obj) appendTerm(b *strings.Builder, model bool) {
+	if model && o.isFloat() {
+		format, neg, digits, exp, ok := o.decimal()
+		if !ok {
+			b.WriteString("f:?")
+			return
+		}
+		if digits == "" {
+			digits = "-"
+		}
+		n := "0"
+		if neg {
+			n = "1"
+		}
+		fmt.Fprintf(b, "f:%s:%s:%s:%d", format, n, digits, exp)
+		return
+	}
 	switch o.kind {
 	case "nil":
 		b.WriteString("n")
@@ -193,32 +273,43 @@ func (o *c3Obj) appendTerm(b *strings.Builder) {
 		b.WriteString(fmt.Sprintf("fd:%x", math.Float64bits(o.f)))
 	case "lflt":
 		b.WriteString("fl:" + lib.Hex(o.s))
+	case "mflt":
+		fmt.Fprintf(b, "f:%s:%v:%s:%d", o.s, o.neg, o.digits, o.exp)
 	case "list":
 		b.WriteString("(")
 		for _, e := range o.elems {
 			b.WriteByte(' ')
-			e.appendTerm(b)
+			e.appendTerm(b, model)
 		}
 		if o.tail != nil {
 			b.WriteString(" . ")
-			o.tail.appendTerm(b)
+			o.tail.appendTerm(b, model)
 		}
 		b.WriteString(" )")
 	case "vec":
 		b.WriteString("v(")
 		for _, e := range o.elems {
 			b.WriteByte(' ')
-			e.appendTerm(b)
+			e.appendTerm(b, model)
 		}
 		b.WriteString(" )")
 	case "arr":
 		b.WriteString("a:" + strconv.Itoa(len(o.dims)) + " ")
-		o.arrContents(b, 0, 0)
+		o.arrContents(b, 0, 0, model)
 	}
 }
 
 // arrContents writes the nested-list contents of an array (what slip's AsList yields).
-func (o *c3Obj) arrContents(b *strings.Builder, di, ei int) int {
+func (o *c3Obj) arrContents(b *strings.Builder, di, ei int, model bool) int {
+	if len(o.dims) == 0 {
+		// rank 0: the single element
+		if len(o.elems) > 0 {
+			o.elems[0].appendTerm(b, model)
+		} else {
+			b.WriteString("n")
+		}
+		return 1
+	}
 	if o.dims[di] == 0 {
 		b.WriteString("n")
 		return ei
@@ -227,10 +318,10 @@ func (o *c3Obj) arrContents(b *strings.Builder, di, ei int) int {
 	for i := 0; i < o.dims[di]; i++ {
 		b.WriteByte(' ')
 		if di == len(o.dims)-1 {
-			o.elems[ei].appendTerm(b)
+			o.elems[ei].appendTerm(b, model)
 			ei++
 		} else {
-			ei = o.arrContents(b, di+1, ei)
+			ei = o.arrContents(b, di+1, ei, model)
 		}
 	}
 	b.WriteString(" )")
@@ -333,6 +424,8 @@ func c3ParseWords(w []string) (*c3Obj, []string, error) {
 			if err := walk(contents, 0); err != nil {
 				return nil, nil, err
 			}
+		} else {
+			elems = []*c3Obj{contents}
 		}
 		return c3Arr(dims, elems), r2, nil
 	}
@@ -379,6 +472,21 @@ func c3ParseWords(w []string) (*c3Obj, []string, error) {
 		return c3Double(math.Float64frombits(bits)), rest, nil
 	case "fl":
 		return c3Long(lib.Unhex(v)), rest, nil
+	case "f":
+		// a float as the model gives it back: f:<format>:<negative>:<digits>:<exponent>
+		parts := strings.Split(v, ":")
+		if len(parts) != 4 {
+			return nil, nil, fmt.Errorf("bad float word %q", head)
+		}
+		e, err := strconv.Atoi(parts[3])
+		if err != nil {
+			return nil, nil, err
+		}
+		digits := parts[2]
+		if digits == "-" {
+			digits = ""
+		}
+		return &c3Obj{kind: "mflt", s: parts[0], neg: parts[1] == "1" || parts[1] == "true", digits: digits, exp: e}, rest, nil
 	}
 	return nil, nil, fmt.Errorf("bad word %q", head)
 }
@@ -457,6 +565,12 @@ func c3FromObject(x slip.Object) (*c3Obj, bool) {
 // c3TermEqualFold compares two float-free terms, symbols case-insensitively (slip's symbol
 // equality folds case) and nil with the empty list object distinguished.
 func c3SameTerm(a, b *c3Obj) bool {
+	if a.isFloat() && b.isFloat() && (a.kind == "mflt" || b.kind == "mflt") {
+		// a float against what the model read: same format and the same canonical decimal
+		fa, na, da, ea, oka := a.decimal()
+		fb, nb, db, eb, okb := b.decimal()
+		return oka && okb && fa == fb && na == nb && da == db && ea == eb
+	}
 	if a.kind != b.kind {
 		return false
 	}
